@@ -22,7 +22,7 @@ def jobs_for(tier):
         tpls = corpus.select(feats={'basic', 'ext', 'manyadd'}, exclude={'real'}) + \
             corpus.select(ids={'combo-oer-enum', 'combo-uper6', 'combo-choice-seq', 'seq-opt'})
     else:
-        tpls = corpus.TEMPLATES
+        tpls = corpus.TEMPLATES + corpus.generated()
     seen = set()
     for t in tpls:
         if t['id'] in seen:
